@@ -14,8 +14,10 @@ from ..lib import coqlit as L
 from ..lib import e2
 
 IMPORTS = ["Base", "Match"]
-FILES = ["/app/a.py", "/app/pkg/a.py", "/app/b.py", "/lib/c.py"]
-FUNCS = ["f", "g", "run", "<module>"]
+# names that are suffixes / prefixes of one another: a match is on the WHOLE file / function name
+FILES = ["/app/a.py", "/app/pkg/a.py", "/app/b.py", "/lib/c.py", "/app/xa.py", "/app/a.pyx"]
+CFG_FILES = ["a.py", "b.py", "c.py", "xa.py", "a.pyx", "y"]
+FUNCS = ["f", "g", "run", "<module>", "runf", "ru"]
 KINDS = ["call", "line", "return", "exception"]
 KLIT = {"call": "KCall", "line": "KLine", "return": "KReturn", "exception": "KException"}
 
@@ -39,9 +41,9 @@ def gen_locs(rng):
     locs = []
     for _ in range(rng.choice([0, 1, 2, 4, 6])):
         if rng.random() < 0.6:
-            locs.append(("line", rng.choice(["a.py", "b.py", "c.py", "zz.py"]), rng.choice([1, 2, 3, 4, 99])))
+            locs.append(("line", rng.choice(CFG_FILES + ["zz.py"]), rng.choice([1, 2, 3, 4, 99])))
         else:
-            locs.append(("func", rng.choice(["a.py", "b.py", "c.py"]), rng.choice(FUNCS[:3] + ["never"])))
+            locs.append(("func", rng.choice(CFG_FILES), rng.choice(FUNCS[:3] + ["never", "runf", "ru", "n"])))
     # several tracepoints on one location
     for _ in range(rng.choice([0, 0, 1, 2])):
         if locs:
@@ -321,6 +323,75 @@ def live(ctx, n):
     ctx.correspond("live", IMPORTS, "match_case", "check_match_case", lits, cj, shard=10)
 
 
+RECONF_SRC = '''def work(install, n):
+    x = 1
+    install()
+    y = 2
+    for i in range(n):
+        x += i
+    return x + y
+
+
+def main(install, n):
+    return work(install, n)
+'''
+
+
+def live_reconfig(ctx, n):
+    """The configuration changes while a function is running: a tracepoint installed on a line the running invocation
+    has yet to reach acts when it is reached (the decision 'nothing to do in this scope' may not be taken at function
+    entry from the configuration of that moment)."""
+    from deep.api.tracepoint.trigger import LocationAction, Trigger, LineLocation, Location
+    rng = ctx.rng
+    d = os.path.join(e2_build(), "live_c03")
+    os.makedirs(d, exist_ok=True)
+    for k in range(n):
+        path = os.path.join(d, "reconf_%d_%d.py" % (os.getpid(), k))
+        base = os.path.basename(path)
+        world = e2.World(logger=True, spans=0, metrics=0)
+        world.clear_pending()
+
+        def mk(tid, file, line):
+            return Trigger(LineLocation(file, line, Location.Position.START),
+                           [LocationAction(tid, None, {"fire_count": "-1", "fire_period": "0", "log_msg": "m"}, LocationAction.ActionType.Log)])
+        before = rng.choice(["other-file", "same-file-unreached-line", "other-file"])
+        first = mk("tp0", "elsewhere.py", 3) if before == "other-file" else mk("tp0", base, 999)
+        target = rng.choice([4, 6, 7])
+        loops = rng.choice([1, 3])
+        world.install([first])
+
+        def install(world=world, first=first, base=base, target=target):
+            world.install([first, mk("tp1", base, target)])
+
+        def tracer(frame, event, arg, world=world):
+            if event not in KINDS:
+                return tracer
+            r = world.handler.trace_call(frame, event, arg)
+            return tracer if r is not None else None
+        glb = {"__name__": "reconf"}
+        exec(compile(RECONF_SRC, path, "exec"), glb)
+        result = []
+
+        def body():
+            sys.settrace(tracer)
+            try:
+                result.append(glb["main"](install, loops))
+            finally:
+                sys.settrace(None)
+        th = threading.Thread(target=body)
+        th.start()
+        th.join()
+        acted = [tp for what, tp, _i, _p in world.log if what == "log"]
+        want = ["tp1"] * (loops if target == 6 else 1)
+        j = dict(live=True, configuration_before=before, installed_while_running="line %d of the running function" % target,
+                 loop_iterations=loops, acted=acted)
+        ctx.case(j, nontrivial=True, bucket="live-reconfig")
+        if acted != want:
+            ctx.fail("a tracepoint installed on line %d while its function was already running acted %r, execution reached the line "
+                     "%d time(s) after the installation" % (target, acted, len(want)), j, kind="history", tag="missed-after-reconfig")
+        world.clear_pending()
+
+
 def overlap(ctx, n):
     """Hits that overlap in time: while one thread is inside the actions of a tracepoint (parked in a log field),
     other threads reach their own tracepoints; every one of them must act."""
@@ -373,7 +444,9 @@ def run(ctx):
                 "location, 1-3 actions of kinds log/snapshot/span each) x 4-25 events of all four kinds over 4 paths (two "
                 "with the same basename) x 5 lines x 4 functions through the real handler; (b) the same tracepoints as one "
                 "poll response through convert_response (merge by location id); (c) live programs (generator, caught "
-                "exception, loop, 3 threads) with 1-6 triggers under sys/threading.settrace, every delivered event recorded. "
+                "exception, loop, 3 threads) with 1-6 triggers under sys/threading.settrace, every delivered event recorded; (d) a "
+                "tracepoint installed, while a non-empty configuration is active, on a later line of a function that is already "
+                "running; names that are suffixes / prefixes of one another. "
                 "Non-trivial: at least one event at which something acted.")
     ctx.assumptions = [
         "scope: the events CPython delivers to the handler (a frame entered while no tracepoint was installed gets no "
@@ -386,6 +459,7 @@ def run(ctx):
     synthetic(ctx, 600 if ctx.thorough else 100, True)
     gated(ctx, 600 if ctx.thorough else 100)
     live(ctx, 60 if ctx.thorough else 12)
+    live_reconfig(ctx, 24 if ctx.thorough else 6)
     overlap(ctx, 30 if ctx.thorough else 6)
 
 
